@@ -349,7 +349,7 @@ int reb_simulation_remove_particle(struct reb_simulation* const r, int index, in
         keep_sorted = 1; // Force keep_sorted for hybrid integrator
         struct reb_integrator_mercurius* rim = &(r->ri_mercurius);
         if (rim->N_allocated_dcrit>0 && index<(int)rim->N_allocated_dcrit){
-            for (unsigned int i=0;i<r->N-1;i++){
+            for (unsigned int i=0;i<r->N-1 && i+1<rim->N_allocated_dcrit;i++){ // dcrit might be shorter than N if particles were added since the last step
                 if ((int)i>=index){
                     rim->dcrit[i] = rim->dcrit[i+1];
                 }
